@@ -233,7 +233,18 @@ func checkC20(c *Ctx) {
 					}
 				}
 			})
-			for _, a := range hc.AnonFuncs {
+			// the deferred release: a closure, or a function/method deferred directly
+			var released []*ssa.Function
+			eachInstr(hc, func(_ *ssa.BasicBlock, _ int, in ssa.Instruction) {
+				if d, ok := in.(*ssa.Defer); ok {
+					if g, _ := methodCall(&d.Call); g != nil && g.Blocks != nil && isModFn(g) {
+						released = append(released, g)
+					} else if g := funcValue(d.Call.Value); g != nil && g.Blocks != nil {
+						released = append(released, g)
+					}
+				}
+			})
+			for _, a := range released {
 				dec, hd := false, false
 				eachInstr(a, func(_ *ssa.BasicBlock, _ int, in ssa.Instruction) {
 					if f, m := counterOp(in); f != nil && f.Name() == "CxActive" && m == "Dec" {
